@@ -137,6 +137,7 @@ def write_graph(molecule, smiles_format=False, default_element='*', name_attr='f
         if current in atom_to_ring_idx:
             # We're going to need to write a ring number
             ring_idxs = atom_to_ring_idx[current]
+            ring_markers = []
             for ring_idx in ring_idxs:
                 ring_bond = ring_idx_to_bond[ring_idx]
                 if ring_idx not in ring_idx_to_marker:
@@ -147,11 +148,16 @@ def write_graph(molecule, smiles_format=False, default_element='*', name_attr='f
                     marker = ring_idx_to_marker.pop(ring_idx)
                     new_marker = False
 
+                marker_str = ''
                 if _write_edge_symbol(molecule, *ring_bond) and new_marker:
                     order = molecule.edges[ring_bond].get('order', 1)
-                    smiles += order_to_symbol[order]
+                    marker_str += order_to_symbol[order]
 
-                smiles += str(marker) if marker < 10 else '%{}'.format(marker)
+                marker_str += str(marker) if marker < 10 else '%{}'.format(marker)
+                ring_markers.append((marker >= 10, marker_str))
+            # a multi-digit marker must not be followed by a single-digit
+            # marker, because the digit would be read as part of it
+            smiles += ''.join(marker_str for _, marker_str in sorted(ring_markers, key=lambda x: x[0]))
 
         if current in dfs_successors:
             # Proceed to the next node in this branch
